@@ -938,3 +938,114 @@ def accepted_relation(body, g, success='ok'):
     if f_targets and success_reachable(body, set(), success, starts=f_targets):
         acc |= rel_false
     return acc
+
+
+# ---------------------------------------------------------------- R9 lock regions
+
+LOCK_CALLS = ['std::sync::poison::mutex::Mutex::lock', 'std::sync::poison::rwlock::RwLock::read',
+              'std::sync::poison::rwlock::RwLock::write', 'tokio::sync::mutex::Mutex::lock',
+              'tokio::sync::rwlock::RwLock::read', 'tokio::sync::rwlock::RwLock::write',
+              'std::sync::poison::mutex::Mutex::try_lock']
+GUARD_TYPES = ('std::sync::poison::mutex::MutexGuard<', 'std::sync::poison::rwlock::RwLockReadGuard<',
+               'std::sync::poison::rwlock::RwLockWriteGuard<', 'tokio::sync::mutex::MutexGuard<',
+               'tokio::sync::rwlock::read_guard::RwLockReadGuard<', 'tokio::sync::rwlock::write_guard::RwLockWriteGuard<')
+UNWRAPPERS = ['std::result::Result::unwrap', 'std::result::Result::expect', 'std::result::Result::map_err',
+              '<std::result::Result as anyhow::Context>::with_context', 'anyhow::Context::with_context',
+              '<std::result::Result as anyhow::Context>::context', 'anyhow::Context::context',
+              '<* as std::ops::try_trait::Try>::branch', 'std::ops::try_trait::Try::branch',
+              '<* as std::future::into_future::IntoFuture>::into_future', 'std::future::into_future::IntoFuture::into_future',
+              'std::pin::Pin::new_unchecked', '<* as std::future::future::Future>::poll', 'std::future::future::Future::poll']
+
+
+class LockRegion:
+    def __init__(self):
+        self.field = None
+        self.call = None
+        self.guard = None
+        self.blocks = set()
+        self.end_blocks = set()
+
+    def __repr__(self):
+        return 'LockRegion(%s guard=_%s line=%s blocks=%s)' % (self.field, self.guard, self.call.line, sorted(self.blocks))
+
+
+def lock_regions(fn):
+    """Lock regions of a body: for every lock acquisition, the guard local and the blocks executed
+    while it is held (from the guard's definition to its drop / move-out)."""
+    body = fn.body
+    out = []
+    for c in body.calls():
+        if not any(match_any(LOCK_CALLS, n) for n in c.names()):
+            continue
+        og = fn_origins(fn, c.args[0], False) if c.args else set()
+        field = None
+        for o in sorted(og):
+            if o.startswith('pty:') and '.' in o:
+                field = o[4:]
+                break
+        # forward to the guard local
+        guard = None
+        seen = set()
+        work = deque([c.dest[0]])
+        while work and guard is None:
+            l = work.popleft()
+            if l in seen:
+                continue
+            seen.add(l)
+            if body.lty(l).startswith(GUARD_TYPES):
+                guard = l
+                break
+            for (bi, si, how, payload) in body.uses(l):
+                if how == 'stmt':
+                    pl, rv, place = payload
+                    if rv[0] in ('use', 'ref', 'cfd') and not pl[1]:
+                        work.append(pl[0])
+                elif how == 'arg':
+                    cc, ai, place = payload
+                    if ai == 0 and any(match_any(UNWRAPPERS, n) for n in cc.names()) and not cc.dest[1]:
+                        work.append(cc.dest[0])
+        r = LockRegion()
+        r.field = field
+        r.call = c
+        r.guard = guard
+        if guard is not None:
+            # ownership chain: the guard may be moved from a temporary into the named local
+            chain = [guard]
+            moved_out = set()
+            changed = True
+            while changed:
+                changed = False
+                for g in list(chain):
+                    for (bi, si, how, payload) in body.uses(g):
+                        if how == 'stmt':
+                            pl, rv, place = payload
+                            if rv[0] == 'use' and rv[1][0] == 'move' and not place[1] and not pl[1] \
+                                    and body.lty(pl[0]).startswith(GUARD_TYPES) and pl[0] not in chain:
+                                chain.append(pl[0])
+                                moved_out.add(g)
+                                changed = True
+            owner = chain[-1]
+            r.guard = owner
+            starts = []
+            for g in chain:
+                for (bi, si, pl, rv) in body.defs(g):
+                    if si == 't':
+                        if isinstance(rv, tuple):
+                            continue
+                        if rv.target is not None:
+                            starts.append(rv.target)
+                    else:
+                        starts.append(bi)
+            ends = set()
+            for g in chain:
+                for (bi, si, how, payload) in body.uses(g):
+                    if how == 'drop' and g not in moved_out:
+                        ends.add(bi)
+                    elif how == 'arg':
+                        cc, ai, place = payload
+                        if not place[1] and cc.args[ai][0] == 'move':
+                            ends.add(bi)     # guard moved into a call (e.g. Condvar::wait_timeout)
+            r.blocks = body.reach(starts, stop=ends)
+            r.end_blocks = ends
+        out.append(r)
+    return out
